@@ -156,6 +156,7 @@ class Driver:
         self.names = ["a", "b"]
         self.vnames = None
         self.frozen = None
+        self.it = self.it_kind = self.it_names = None
         self.nstep = 0
         # history facts used only to label a divergence (known-finding signatures), never to decide one
         self.vmemo = set()
@@ -205,6 +206,12 @@ class Driver:
                 return row_(tgt.fetchone())
             if a == "Next":
                 return row_(next(tgt))
+            if a == "Iter":
+                self.it, self.it_kind, self.it_names = iter(tgt), kind, names
+                return ok
+            if a == "ItNext":
+                x = next(self.it)
+                return {"k": "row", "rows": [self._row(x, self.it_kind, self.it_names)], "err": ""}
             if a == "IterStep":
                 it = iter(tgt)
                 try:
@@ -316,7 +323,7 @@ class Driver:
         return msg, self._labels(frm, act, exp)
 
     def _labels(self, frm, act, exp):
-        lab = {"pre_state": frm["state"], "expected": exp["err"] or exp["k"], "fam": frm["fam"],
+        lab = {"pre_state": frm["state"], "expected": exp["err"] or exp["k"], "fam": frm["fam"], "it_started": frm.get("it") in ("b1", "v1"),
                "merged_result": frm["fam"] == "merged" or self.impl in ("merged", "cursor_merged")}
         if act is not None and act["h"] == "v":
             g = FETCH_GETTER.get(act["a"], "ustrat" if act["a"] == "All" else None)
@@ -372,7 +379,7 @@ class CompactGraph:
 
 def _mini(st):
     """the part of a spec state the driver looks at (building the result, labels)"""
-    return {"cfg": st.get("cfg"), "rows": st["rows"], "state": st["state"], "pos": st["pos"], "fam": st["fam"],
+    return {"cfg": st.get("cfg"), "rows": st["rows"], "state": st["state"], "pos": st["pos"], "fam": st["fam"], "it": st.get("it", "none"),
             "b": {"uniq": st["b"]["uniq"]}, "v": {"uniq": st["v"]["uniq"]}}
 
 
